@@ -50,6 +50,25 @@ class _Meta(type):
     _accept = ()
     _real = object
 
+    def __getattr__(cls, name):
+        # `str.translate(value, table)` / `bytes.hex(value)` / `int.bit_length(n)`: an unbound method
+        # of the genuine type applied to a proxy is the proxy's own method
+        real = cls.__dict__.get("_real", object)
+        if name.startswith("__") or not hasattr(real, name):
+            raise AttributeError(name)
+        attr = getattr(real, name)
+        if not callable(attr) or _real_isinstance(real.__dict__.get(name), (staticmethod, classmethod)):
+            return attr
+
+        def call(obj, *a, **k):
+            if is_proxy(obj):
+                return getattr(obj, name)(*a, **k)
+            if not _real_isinstance(obj, real):
+                raise TypeError(f"descriptor '{name}' for '{real.__name__}' objects doesn't apply to a '{type(obj).__name__}' object")
+            return getattr(obj, name)(*a, **k)
+
+        return call
+
     def __instancecheck__(cls, obj):
         return _real_isinstance(obj, cls._accept)
 
@@ -694,8 +713,16 @@ class _MemberMap(dict):
 class SxEnumMeta(_enum.EnumMeta):
     def __call__(cls, value, *a, **k):
         if a or k or not _real_isinstance(value, (V.SInt, V.SBool)) or not issubclass(cls, _real_int):
+            if is_proxy(value) and not (a or k):
+                # a text / octets valued enumeration looked up with a symbolic value: one path per
+                # member whose value can be equal, ValueError otherwise
+                for m in cls:
+                    r = value == m.value
+                    if r is True or (r is not False and r is not NotImplemented and _real_bool(r)):
+                        return m
+                raise ValueError(f"{PLACEHOLDER_KEY} is not a valid {cls.__qualname__}")
             if is_proxy(value):
-                raise Unsupported(f"{cls.__name__}(symbolic non-int)")
+                raise Unsupported(f"{cls.__name__}(symbolic value with extra arguments)")
             return super().__call__(value, *a, **k)
         value = V.as_sint(value)
         if not _real_isinstance(cls._value2member_map_, _MemberMap):
